@@ -101,6 +101,25 @@ pub fn gen_history<S: Sut>(seed: u64, cfg: Cfg, sweep: Option<Sweep>) -> Outcome
             }
         };
     }
+    // wide profile: one replica first issues S::WIDE_PREFIX commands over a 12-element domain and everybody receives
+    // them, then the history proceeds as usual on the large state
+    let wide = cfg.policy == 255 && !cfg.misuse && rng.chance(1, 8);
+    WIDE.with(|w| w.set(if wide { 12 } else { 0 }));
+    if wide {
+        HOT.with(|h| h.set(false));
+        let r = rng.below(n);
+        for _ in 0..S::WIDE_PREFIX {
+            let cmd = S::random_cmd(&mut rng, &w.sh);
+            go!(Act::Gen { r, actor: actor_ids[r], cmd, old: 0 });
+        }
+        for q in 0..n {
+            for i in 0..w.ops.len() {
+                if q != r && w.know[q] >> i & 1 == 0 {
+                    go!(Act::Deliver { r: q, author: w.author[i], seq: w.seqs[i] });
+                }
+            }
+        }
+    }
     // fast-forwards: in every sixth history up to three update commands carry a dot far ahead of the author's next
     // one (a long stretch of ops whose effects are gone): counters cross u8/u16/u31/u32 boundaries in mid-history,
     // lagging replicas and stale snapshots are then orders of magnitude behind
